@@ -34,10 +34,10 @@ LEVEL = {  # evidence level per property (must agree with MANIFEST.json)
     'C07': 'proof',
     'C01': 'other', 'C02': 'other', 'C03': 'other', 'C05': 'other', 'C06': 'other', 'C09': 'other', 'C10': 'other',
     'C11': 'other', 'C12': 'other', 'C13': 'other', 'C14': 'other', 'C17': 'other', 'C18': 'other',
-    'C08': 'other', 'C16': 'exploration',
+    'C08': 'other', 'C16': 'other',
     'C04': 'exploration', 'C15': 'exploration',
 }
-CONTRACT_MODULES = ['streams', 'sync', 'writers', 'cwrite', 'helpers', 'cpack', 'cdirect', 'crepack', 'clist', 'cread']
+CONTRACT_MODULES = ['streams', 'sync', 'writers', 'cwrite', 'helpers', 'cpack', 'cdirect', 'crepack', 'clist', 'cread', 'cclose', 'cclean', 'cdelete', 'cvalidate', 'csorted']
 STANDING_ASSUMPTIONS = [
     'pyvc encodes a subset of Python: unbounded mathematical integers, bytes/str as z3 sequences, attribute dictionaries, '
     'left-to-right evaluation, no threads, no signals; anything outside the subset makes the unit undecided (never a pass)',
@@ -93,18 +93,46 @@ def units_for(prop):
 _SRC_HASH = {}
 
 
-def source_hash():
-    """Digest of everything a unit's verdict depends on: the repository sources it parses, the engine and the contracts."""
-    if 'h' not in _SRC_HASH:
+def _contract_closure(mod):
+    """Contract modules a unit of `mod` can depend on: its DEPENDS list and everything it imports from the package,
+    transitively (plus the shared vocabulary)."""
+    import re
+    seen, todo = set(), [mod, 'common', 'cmodel', '__init__']
+    while todo:
+        m = todo.pop()
+        if m in seen:
+            continue
+        p = os.path.join(HERE, 'contracts', m + '.py')
+        if not os.path.exists(p):
+            continue
+        seen.add(m)
+        src = open(p).read()
+        for mm in re.findall(r'^\s*from \.(\w+) import', src, re.M):
+            todo.append(mm)
+        for line in re.findall(r'^\s*from \. import (.+)$', src, re.M):
+            for part in line.split(','):
+                todo.append(part.strip().split(' ')[0])
+        for lst in re.findall(r'^DEPENDS\s*=\s*\[(.*?)\]', src, re.M | re.S):
+            todo += re.findall(r"'(\w+)'", lst)
+    return sorted(seen)
+
+
+def source_hash(mod=None):
+    """Digest of everything a unit's verdict depends on: the repository sources it parses, the engine and the contract
+    modules its own module can reach."""
+    if mod not in _SRC_HASH:
         import hashlib
         h = hashlib.sha256()
-        for d in (os.path.join(REPO, 'disk_objectstore'), os.path.join(HERE, 'pyvc'), os.path.join(HERE, 'contracts')):
-            for f in sorted(os.listdir(d)):
-                if f.endswith('.py'):
-                    h.update(f.encode() + b'\0' + open(os.path.join(d, f), 'rb').read() + b'\0')
-        h.update(open(os.path.join(HERE, 'baseline_obligations.json'), 'rb').read() if os.path.exists(os.path.join(HERE, 'baseline_obligations.json')) else b'')
-        _SRC_HASH['h'] = h.hexdigest()
-    return _SRC_HASH['h']
+        files = []
+        for d in (os.path.join(REPO, 'disk_objectstore'), os.path.join(HERE, 'pyvc')):
+            files += [os.path.join(d, f) for f in sorted(os.listdir(d)) if f.endswith('.py')]
+        cdir = os.path.join(HERE, 'contracts')
+        names = _contract_closure(mod) if mod else sorted(f[:-3] for f in os.listdir(cdir) if f.endswith('.py'))
+        files += [os.path.join(cdir, n + '.py') for n in names]
+        for f in files:
+            h.update(os.path.basename(f).encode() + b'\0' + open(f, 'rb').read() + b'\0')
+        _SRC_HASH[mod] = h.hexdigest()
+    return _SRC_HASH[mod]
 
 
 def run_unit(u, budget, scale=1):
@@ -112,7 +140,7 @@ def run_unit(u, budget, scale=1):
     solver budget); verdicts are memoised under out/cache by the digest of exactly those inputs, so that the properties
     sharing a unit do not re-prove it within one session. VERIF_NO_CACHE=1 disables the memo."""
     import hashlib
-    key = hashlib.sha256(f"{source_hash()}|{u['module']}|{u['name']}|{scale}|{env().get('PYVC_TIMEOUT_MS')}".encode()).hexdigest()[:32]
+    key = hashlib.sha256(f"{source_hash(u['module'])}|{u['module']}|{u['name']}|{scale}|{env().get('PYVC_TIMEOUT_MS')}".encode()).hexdigest()[:32]
     cpath = os.path.join(OUT, 'cache', key + '.json')
     if not os.environ.get('VERIF_NO_CACHE') and os.path.exists(cpath):
         try:
